@@ -824,6 +824,24 @@ class WrapperAnalysis:
         cname = short(r['q'])
         P, N = basefields
         if c is None:
+            # recognised-wrong form: (T *)((byte *)base + k) with k a bare parameter and T wider than a byte - the element offset of
+            # the interface is applied in bytes.  (k * sizeof(T), or T itself a byte type, is the same address: not this form.)
+            BYTES = ('unsigned char *', 'char *', 'signed char *', 'uint8_t *', 'std::uint8_t *', 'int8_t *', 'std::byte *')
+            nb = lambda t: (t or '').replace('const ', '').strip()
+            if isinstance(pu, tuple) and len(pu) == 3 and pu[0] == 'cast' and nb(pu[1]) not in BYTES and nb(pu[1]).endswith('*') \
+                    and 'void' not in nb(pu[1]) and isinstance(pu[2], tuple) and pu[2] and pu[2][0] == 'add' and len(pu[2]) == 3:
+                ops = pu[2][1:]
+                bs = [o for o in ops if isinstance(o, tuple) and len(o) == 3 and o[0] == 'cast' and nb(o[1]) in BYTES]
+                ks = [o for o in ops if isinstance(o, tuple) and o and o[0] == 'param']
+                if len(bs) == 1 and len(ks) == 1 and \
+                        self.classify_ptr(('add', bs[0][2], ks[0]), X, tracked, owners, basefields) is not None:
+                    findings.append(Finding('R-C11-1', 'byte-offset', 'setPtr receives `%s`: the element offset `%s` is added to the '
+                                            'storage pointer after it was cast to a byte pointer, so the view starts %s bytes - not '
+                                            'elements - into its source; for an element type wider than one byte begin() is at the '
+                                            'wrong (and possibly misaligned) address and the view does not alias its source exactly'
+                                            % (show(pu), show(ks[0]), show(ks[0])), ev.node))
+                    st[X] = 'S'
+                    return
             findings.append(Finding('R-C11-1', 'provenance', 'cannot classify the pointer argument `%s` of setPtr' % show(pu), ev.node, True))
             st[X] = 'S'
             return
